@@ -152,6 +152,78 @@ pub fn dictionary() -> &'static [String] {
     })
 }
 
+/// Integer literals of the code under test (non-test sources, harvested at run time): thresholds the code
+/// itself mentions (a chunk size, a buffer size, a limit) are where its behaviour changes.
+pub fn numeric_literals() -> &'static [usize] {
+    static N: std::sync::OnceLock<Vec<usize>> = std::sync::OnceLock::new();
+    N.get_or_init(|| {
+        let mut out: Vec<usize> = Vec::new();
+        let root = std::path::Path::new(concat!(env!("CARGO_MANIFEST_DIR"), "/../../repo/src"));
+        let mut stack = vec![root.to_path_buf()];
+        while let Some(d) = stack.pop() {
+            let rd = match std::fs::read_dir(&d) {
+                Ok(r) => r,
+                Err(_) => continue,
+            };
+            for e in rd.flatten() {
+                let p = e.path();
+                if p.is_dir() {
+                    if p.file_name().map(|n| n != "tests").unwrap_or(true) {
+                        stack.push(p);
+                    }
+                } else if p.extension().map(|x| x == "rs").unwrap_or(false) {
+                    if let Ok(src) = std::fs::read_to_string(&p) {
+                        let src = src.split("#[cfg(test)]").next().unwrap_or("").to_string();
+                        for line in src.lines() {
+                            let code = line.split("//").next().unwrap_or("");
+                            let b = code.as_bytes();
+                            let mut i = 0;
+                            while i < b.len() {
+                                if b[i].is_ascii_digit() && (i == 0 || !(b[i - 1].is_ascii_alphanumeric() || b[i - 1] == b'_' || b[i - 1] == b'.')) {
+                                    let mut j = i;
+                                    while j < b.len() && (b[j].is_ascii_alphanumeric() || b[j] == b'_') {
+                                        j += 1;
+                                    }
+                                    let tok: String = code[i..j].chars().filter(|c| *c != '_').collect();
+                                    let tok = tok.trim_end_matches("usize").trim_end_matches("u64").trim_end_matches("u32").trim_end_matches("u16").trim_end_matches("u8").trim_end_matches("i32").to_string();
+                                    let v = if let Some(h) = tok.strip_prefix("0x") {
+                                        usize::from_str_radix(h, 16).ok()
+                                    } else if let Some(bn) = tok.strip_prefix("0b") {
+                                        usize::from_str_radix(bn, 2).ok()
+                                    } else {
+                                        tok.parse::<usize>().ok()
+                                    };
+                                    if let Some(v) = v {
+                                        out.push(v);
+                                    }
+                                    i = j;
+                                } else {
+                                    i += 1;
+                                }
+                            }
+                        }
+                    }
+                }
+            }
+        }
+        // … and the products / shifts a reader would compute from them (4 * 1024, 1 << 20 appear as two literals)
+        let base = out.clone();
+        for a in &base {
+            for b in &base {
+                if *a >= 2 && *b >= 2 && *a <= 4096 && *b <= 4096 {
+                    out.push(a * b);
+                }
+                if *a <= 64 && *b < 32 && *b >= 2 {
+                    out.push(a << b);
+                }
+            }
+        }
+        out.sort();
+        out.dedup();
+        out
+    })
+}
+
 pub fn gen_text(rng: &mut Rng, sz: Sizes) -> String {
     let len = pick_len(rng, sz);
     if UNIFORM_LEN.with(|u| u.get()).is_none() && !dictionary().is_empty() && rng.chance(1, 14) {
@@ -691,9 +763,23 @@ pub fn gen_v5(rng: &mut Rng, t: usize, sz: Sizes, pmode: u8, one: usize) -> v5::
             Packet::Connack(Connack { session_present: rng.chance(1, 2), reason_code: *rng.pick(&v5text::CONNECT_RC), properties: v5text::mk_connack_props(&props) })
         }
         2 => {
-            let props = gen_props(rng, &v5text::PUBLISH_IDS, sz, pmode, one);
+            let mut props = gen_props(rng, &v5text::PUBLISH_IDS, sz, pmode, one);
+            let topic_name = gen_topic_name(rng, sz);
+            // the Response Topic as a NEAR-duplicate of the topic (same text, other ASCII case, one level more)
+            if props.known.contains_key(&0x08) && rng.chance(1, 3) && topic_name.len() > 0 {
+                let t = topic_name.to_string();
+                let v = match rng.below(4) {
+                    0 => t.clone(),
+                    1 => t.to_ascii_uppercase(),
+                    2 => t.to_ascii_lowercase(),
+                    _ => format!("{}/r", t),
+                };
+                if v.len() <= 65535 {
+                    props.known.insert(0x08, Val::Str(v));
+                }
+            }
             let payload = payload_for(rng, &props, sz);
-            Packet::Publish(Publish { dup: rng.chance(1, 2), retain: rng.chance(1, 2), qos_pid: gen_qos_pid(rng), topic_name: gen_topic_name(rng, sz), payload: Bytes::from(payload), properties: v5text::mk_publish_props(&props) })
+            Packet::Publish(Publish { dup: rng.chance(1, 2), retain: rng.chance(1, 2), qos_pid: gen_qos_pid(rng), topic_name, payload: Bytes::from(payload), properties: v5text::mk_publish_props(&props) })
         }
         3 => {
             let (reason_string, user_properties) = reason_ps(&gen_props(rng, &v5text::ACK_IDS, sz, pmode, one));
@@ -780,6 +866,13 @@ fn sweep_lengths(thorough: bool) -> Vec<usize> {
         v.extend(132..140);
         v.extend(16_360..16_374);
     }
+    // thresholds the code itself mentions, beyond the fully swept range (≤ 8300) and below the field limit
+    let lits: Vec<usize> = numeric_literals().iter().cloned().filter(|n| *n > 8300 && *n <= 65_535).collect();
+    for n in lits.iter().take(if thorough { 200 } else { 40 }) {
+        v.extend([n - 1, *n, (*n + 1).min(65_535)]);
+    }
+    v.sort();
+    v.dedup();
     v
 }
 
@@ -859,6 +952,22 @@ pub fn sweep_v3(thorough: bool) -> Vec<v3::Packet> {
                     }
                 }
             }
+        }
+    }
+    // LONG will topics / user names under BOTH protocol levels (3.1 had a 32,767-character limit that this codec
+    // does not apply): lengths in bytes and in characters around 32,767 and at the maximum
+    for protocol in [Protocol::V310, Protocol::V311] {
+        for (unit, chars) in [("a", 32_767usize), ("a", 32_768), ("a", 40_000), ("a", 65_535), ("\u{e9}", 32_767), ("\u{4f60}", 21_845)] {
+            let long = unit.repeat(chars);
+            out.push(Packet::Connect(Connect {
+                protocol,
+                clean_session: true,
+                keep_alive: 7,
+                client_id: Arc::new("c".into()),
+                last_will: Some(LastWill { qos: QoS::Level0, retain: false, topic_name: TopicName::try_from(long.clone()).unwrap(), message: Bytes::from(vec![1u8, 2, 3]) }),
+                username: Some(Arc::new(long)),
+                password: None,
+            }));
         }
     }
     for t in aligned_texts(thorough) {
